@@ -100,7 +100,7 @@ fn find_prelude(
         }
         matches!(
             run_sub(&["replay", &tmp], Duration::from_secs(HANG_SECS)),
-            Some((1, _))
+            Some((1, _)) | Some((3, _))
         )
     };
     let mut k = 1usize;
@@ -183,6 +183,8 @@ struct PassResult {
     stats: Stats,
     harness_errors: Vec<String>,
     respawns: u32,
+    /// workers given up after three deaths
+    abandoned: u32,
 }
 
 enum Msg {
@@ -375,9 +377,10 @@ fn run_pass(
                             key: v.key.clone(),
                         });
                         w.attempts += 1;
-                        if w.attempts > 20 {
-                            res.harness_errors
-                                .push(format!("worker {} died more than 20 times", slot));
+                        if w.attempts >= 3 {
+                            // three runs of this worker's share killed their process: that is
+                            // evidence enough, do not spend minutes per further hang
+                            res.abandoned += 1;
                             open -= 1;
                             continue;
                         }
@@ -600,7 +603,7 @@ pub fn check(args: &[String]) -> i32 {
     harness_errors.extend(det_b.harness_errors.iter().cloned());
     if clean.runs.len() as u64 != t.clean || faults.runs.len() as u64 != t.faults {
         // runs lost to a dead worker are reported as violations; anything else is a harness bug
-        let died = clean.respawns + faults.respawns;
+        let died = clean.respawns + faults.respawns + clean.abandoned + faults.abandoned;
         if died == 0 {
             harness_errors.push(format!(
                 "expected {}+{} runs, got {}+{}",
@@ -682,8 +685,11 @@ pub fn check(args: &[String]) -> i32 {
             }
         }
         // replay in a fresh process must fail the same way
+        // exit 1: the recorded rule failed again; exit 3: the file reproduces a violation of the
+        // property under another rule label (e.g. recorded by the twin rule in the worker, seen
+        // first by the repeat rule when the file is executed alone) - both are reproductions
         let confirmed = match run_sub(&["replay", &path], Duration::from_secs(HANG_SECS + 60)) {
-            Some((1, text)) => {
+            Some((1, text)) | Some((3, text)) => {
                 println!("{}", text.trim_end());
                 true
             }
